@@ -271,3 +271,25 @@ package filesystem
 //@   noinline *
 //@   ensures dropped-list-is-a-miss: isnil(ret(Cache.Get)[0]) || !ret(Cache.Get)[1] ==> err == errCacheMissHistoricalFilenames && paths == nil
 //@   at call Cache.Get : assert arg[0] == cacheKeyPrefix + id
+
+// ---- keystore v1: HMAC and audit-log keys (C02, C07): the fresh key reaches the file only as the output of the key
+// encryptor and the cache only as the output of the cache encryptor, both under the context of the key's own owner and
+// purpose; the clear key is wiped before anything is written.
+//@ func (store *KeyStore) GenerateHmacKey(id []byte) (err error)
+//@   props C02 C07
+//@   noinline *
+//@   at call keystore.NewClientIDKeyContext : assert arg[0] == keystore.PurposeSearchHMAC && sameslice(arg[1], id)
+//@   at call KeyEncryptor.Encrypt#0 : assert recv == store.encryptor && sameslice(arg[1], ret(keystore.GenerateSymmetricKey)[0]) && ret(keystore.GenerateSymmetricKey)[1] == nil && arg[2] == ret(keystore.NewClientIDKeyContext)[0]
+//@   at call KeyEncryptor.Encrypt#1 : assert recv == store.cacheEncryptor && sameslice(arg[1], ret(keystore.GenerateSymmetricKey)[0]) && arg[2] == ret(keystore.NewClientIDKeyContext)[0]
+//@   at call KeyStore.WriteKeyFile : assert only-ciphertext-to-file: sameslice(arg[1], ret(KeyEncryptor.Encrypt#0)[0]) && ret(KeyEncryptor.Encrypt#0)[1] == nil && arg[2] == PrivateFileMode && called(utils.ZeroizeSymmetricKey)
+//@   at call KeyStore.Add : assert only-ciphertext-to-cache: sameslice(arg[1], ret(KeyEncryptor.Encrypt#1)[0]) && ret(KeyEncryptor.Encrypt#1)[1] == nil && ret(KeyStore.WriteKeyFile)[0] == nil
+//@   at call getHmacKeyFilename : assert sameslice(arg[0], id)
+
+//@ func (store *KeyStore) GenerateLogKey() (err error)
+//@   props C07
+//@   noinline *
+//@   at call keystore.NewKeyContext : assert arg[0] == keystore.PurposeAuditLog
+//@   at call KeyEncryptor.Encrypt#0 : assert recv == store.encryptor && sameslice(arg[1], ret(keystore.GenerateSymmetricKey)[0]) && ret(keystore.GenerateSymmetricKey)[1] == nil && arg[2] == ret(keystore.NewKeyContext)[0]
+//@   at call KeyEncryptor.Encrypt#1 : assert recv == store.cacheEncryptor && sameslice(arg[1], ret(keystore.GenerateSymmetricKey)[0]) && arg[2] == ret(keystore.NewKeyContext)[0]
+//@   at call KeyStore.WriteKeyFile : assert only-ciphertext-to-file: sameslice(arg[1], ret(KeyEncryptor.Encrypt#0)[0]) && ret(KeyEncryptor.Encrypt#0)[1] == nil && arg[2] == PrivateFileMode && called(utils.ZeroizeSymmetricKey)
+//@   at call KeyStore.Add : assert only-ciphertext-to-cache: sameslice(arg[1], ret(KeyEncryptor.Encrypt#1)[0]) && ret(KeyEncryptor.Encrypt#1)[1] == nil && ret(KeyStore.WriteKeyFile)[0] == nil
